@@ -500,11 +500,42 @@ class Sym:
             if not strong:
                 vals.append(("opaque", f"mutated:{name}"))
             res = mk_alt(vals, self.max_alts, name)
+            if res[:1] == ("alt",):
+                excl = self._known_not(name, at)
+                if excl and any(a in excl for a in res[1]):
+                    res = mk_alt([a for a in res[1] if a not in excl] or list(res[1]), self.max_alts, name)
         finally:
             self._busy.discard(key)
         if not cenv:
             self._memo[mkey] = res
         return res
+
+    def _known_not(self, name: str, at: int) -> set:
+        """terms (None, or a global sentinel name) that some test dominating `at` established `name` is not -- provided the
+        name was not rebound since"""
+        out = set()
+
+        def says(test, pol):
+            if isinstance(test, ast.UnaryOp) and isinstance(test.op, ast.Not):
+                says(test.operand, not pol)
+            elif isinstance(test, ast.BoolOp):
+                if (isinstance(test.op, ast.And) and pol) or (isinstance(test.op, ast.Or) and not pol):
+                    for v in test.values:
+                        says(v, pol)
+            elif isinstance(test, ast.Compare) and len(test.ops) == 1 and isinstance(test.left, ast.Name) and test.left.id == name:
+                c = test.comparators[0]
+                if (isinstance(test.ops[0], ast.IsNot) and pol) or (isinstance(test.ops[0], ast.Is) and not pol):
+                    if isinstance(c, ast.Constant) and c.value is None:
+                        out.add(("const", "None"))
+                    elif isinstance(c, ast.Name) and c.id not in self.locals:
+                        out.add(("glob", c.id))
+        here = {(d.nid, d.kind) for d in self.rd.reaching(at, name)}
+        for g in self.cfg.guards(at):
+            if g.ast is None or isinstance(g.ast, (ast.For, ast.AsyncFor)) or g.from_assert:
+                continue
+            if {(d.nid, d.kind) for d in self.rd.reaching(g.of, name)} == here:
+                says(g.ast, g.kind == "T")
+        return out
 
     def _def_value(self, sd: Def, name: str, weak: List[Def], depth: int, cenv: dict) -> Term:
         if sd.kind == "param":
@@ -526,7 +557,13 @@ class Sym:
             st = sd.stmt
             old = self._name(name, sd.nid, depth, cenv)
             # `x OP= y` is not `x OP y`: it dispatches to x's in-place method first (distinct term)
-            return ("aug", A.BINOP_TOKEN.get(type(st.op), "?"), old, self._of(st.value, sd.nid, depth, cenv))
+            val = self._of(st.value, sd.nid, depth, cenv)
+            if isinstance(st.op, ast.Add):
+                # list += list is list.extend: one list built in that order
+                cl, cr = _list_contribs(old), _list_contribs(val)
+                if cl is not None and cr is not None:
+                    return ("acc", "list", cl + cr)
+            return ("aug", A.BINOP_TOKEN.get(type(st.op), "?"), old, val)
         if sd.kind == "assign":
             v = sd.value
             # synthetic Subscript(value, Constant(i)) from tuple unpacking -> item
